@@ -21,6 +21,7 @@ RULE = (
     "instants t (100ns ticks since 1601): every offset in [-64,+64] around L0 boundaries (quick 40, thorough 361 epochs), "
     "around L1 and L2 boundaries (quick 200 each, thorough 2000 each), sub-tick ns phases {0,1,50,99}, random instants in "
     "1970..2200 and the real clock. distinct = (t, phase); non-trivial = within 64 ticks of an interval boundary"
+    " Also: a clock that advances on every read with a boundary between the 1st..6th read (moving-* shards); TZ configurations; seed-key caches; if the code does not read a scripted clock the case is judged against the real clock."
 )
 ASSUMPTIONS = [
     "the library obtains 'now' through time.time_ns or time.time (scripted; if the read counter stays 0 the case is judged against the real clock instead, without boundary steering)",
